@@ -200,6 +200,45 @@ def run(chk):
                 chk.violation('lightcone-filter-slice', f'{desc}: kept halo {k}: slice tokens {toks[st[i]:st[i] + no[i]].tolist()} != {want}', dict(halos=halos, keep=keepk))
                 break
     chk.part('rejected_and_lightcone', rejected_sets=nrej, lightcone_loads=nlc)
+    # ---- extended coverage (spec/CatalogPaths.tla): the four documented cleaning-directory layouts resolve to the same catalog
+    try:
+        import shutil
+        from tlc import run_tlc, read_json
+        pf = os.path.join(chk.scratch, 'paths.json')
+        run_tlc(chk, 'MC_CatalogPaths', module_text="---- MODULE MC_CatalogPaths ----\nEXTENDS CatalogPaths\nVARIABLE v\nASSUME NearestOK\nASSUME Emit(0)\nInit == v = 0\nNext == v' = v\n====\n",
+                cfg_text='INIT Init\nNEXT Next\n', env={'CASES_OUT': pf}, timeout=300)
+        cat4 = [[cc.TYPES[0], cc.TYPES[3]], [cc.TYPES[1]]]
+        ref_tokens = None
+        probs = []
+        for lay in read_json(pf):
+            base = os.path.join(chk.scratch, 'layout_' + lay['layout'])
+            shutil.rmtree(base, ignore_errors=True)
+            zd0 = sc.write_catalog(os.path.join(base, '_src'), cat4)          # _src/SimA/halos/z0.000 + _src/cleaning/SimA/z0.000/{cleaned_halo_info,cleaned_rvpid}
+            comp = lambda parts: os.path.join(base, *[{'Sim': 'SimA', 'z': 'z0.000'}.get(x, x) for x in parts])
+            gdir = comp(lay['group'])
+            os.makedirs(os.path.dirname(gdir), exist_ok=True)
+            shutil.move(zd0, gdir)
+            src_clean = os.path.join(base, '_src', 'cleaning', 'SimA', 'z0.000')
+            for sub, key in (('cleaned_halo_info', 'info'), ('cleaned_rvpid', 'rvpid')):
+                dst = comp(lay[key])
+                os.makedirs(dst, exist_ok=True)
+                for fn2 in os.listdir(os.path.join(src_clean, sub)):
+                    shutil.move(os.path.join(src_clean, sub, fn2), os.path.join(dst, fn2))
+            shutil.rmtree(os.path.join(base, '_src'))
+            try:
+                cobj = cc.load(gdir, cleaned=True, subsamples=dict(A=True, B=True, pos=True), fields=['id', 'N'])
+                if [str(p) for p in [cobj.clean_halo_info_dir]] != [comp(lay['info'])]:
+                    probs.append(f'{lay["layout"]}: cleaning info dir {cobj.clean_halo_info_dir} != {comp(lay["info"])}')
+                toks = cc.project(cobj, 'pos').tolist() + np.asarray(cobj.halos['N']).tolist()
+                if ref_tokens is None:
+                    ref_tokens = toks
+                elif toks != ref_tokens:
+                    probs.append(f'{lay["layout"]}: loaded catalog differs from layout L1')
+            except Exception as e:  # noqa
+                probs.append(f'{lay["layout"]}: {type(e).__name__}: {e}')
+        chk.extended('cleaning-directory layouts L1-L4', not probs, '; '.join(probs[:3]))
+    except Exception as e:  # noqa
+        chk.extended('cleaning-directory layouts L1-L4', False, f'{type(e).__name__}: {e}')
     chk.add_cases(nload + nrej + nlc, nontrivial=nontriv + nlc, traces=nload + nrej + nlc)
 
 
